@@ -15,7 +15,8 @@
    [P] partial.  What is NOT proved (covered by the correspondence + the oracles of checks/c07.py only) is listed at
    C07_order_inv_partial. *)
 From AV Require Import Base.Bytes Base.Outcome Hash.HashModel Spec.SpecOps Spec.SpecReal Tree.Heap Tree.Ops Tree.Script Tree.Inv Tree.Range Tree.ValidSubs
-  Tree.SpecWF Tree.SpecWFReal Tree.RangeProofsCalc Tree.RangeProofsOps Tree.RangeProofsLoader Tree.RangeProofsReal Tree.RangeProofsParser Tree.RangeProofsNamed Tree.CopyProofsDefs Tree.RangeProofsInv.
+  Tree.SpecWF Tree.SpecWFReal Tree.RangeProofsCalc Tree.RangeProofsOps Tree.RangeProofsLoader Tree.RangeProofsReal Tree.RangeProofsParser Tree.RangeProofsNamed Tree.CopyProofsDefs Tree.RangeProofsInv Tree.Project Tree.RangeProofsProject Tree.RangeProofsReload.
+From AV Require Xml.Serializer Xml.StrictValidDef Xml.RoundTripFile.
 From AV Require Xml.Parser.
 Open Scope list_scope.
 Open Scope N_scope.
@@ -272,6 +273,45 @@ Theorem C07_copy_resolves_type_refuted :
     find_sub_element RT (n_type n) (n_name nc) v = Val (Some (et, ix)) /\
     n_type nc <> et.
 Proof. exact copy_keeps_source_type. Qed.
+
+(* [U] the reload clause, bridge to C08/C01: the content of one file of a model (Tree/Project.v proj, the filter of
+   ArxmlFile::serialize) of a world that is node-wise OK — Ordered child lists, every child carries the type its name resolves to
+   in the version, character data and attribute values valid for their specifications, attributes known and in the version,
+   SHORT-NAME present where the type is named — is StrictValid (Xml/StrictValidDef.v) EXCEPT for "every required attribute is
+   present" (SVNR), i.e. the strict loader's only possible complaint about it is the one the property allows. *)
+Theorem C07_reload_bridge :
+  forall (T : tables) (check_fn : N -> list N -> res bool) (ver : N), SpecWF T ->
+  forall (w : world) (ff : option N), WorldOK T check_fn ver w ff ->
+  forall (fuel : nat) (i : id) (t : Parser.etree), proj fuel w ff i = Some t ->
+  SVNR T check_fn ver t /\
+  exists n : node, w_nodes w i = Some n /\ Parser.e_name t = n_name n /\ StrictValidDef.e_type t = n_type n.
+Proof. exact proj_svnr. Qed.
+
+(* [U, corollary with explicit hypotheses] composition with C01's file round trip: if the projection is moreover canonical in
+   C01's sense (RootCanon: canonical spellings, required attributes present, header attributes of the version — NOT derived
+   here from the world; values outside the canonical forms and never-set required attributes are where the recorded findings
+   and the allowed RequiredAttributeMissing live) then loading the bytes serialize_file writes for it gives back exactly the
+   projection, strict or lenient, without any warning.  Also not derived: that f_serialize over the heap writes these bytes. *)
+Theorem C07_reload_clean_composed :
+  forall (strict : bool) (T : tables) (tab_el tab_at tab_en : nametab) (check_fn : N -> list N -> res bool)
+         (float_fmt : N -> list N) (float_parse : list N -> option N) (ver : N),
+  SpecWF T ->
+  forall (w : world) (f : N) (fuel : nat) (root : id) (t : Parser.etree) (sa : option bool) (bs : list N),
+  WorldOK T check_fn ver w (Some f) ->
+  proj fuel w (Some f) root = Some t ->
+  RoundTripFile.RootCanon strict T tab_el tab_at tab_en check_fn float_fmt float_parse ver t ->
+  Serializer.set_version T tab_at check_fn ver t = Val t ->
+  Serializer.serialize_file T tab_el tab_at tab_en check_fn float_fmt ver sa t = Val bs ->
+  SVNR T check_fn ver t /\
+  exists st, Parser.load strict T tab_el tab_at tab_en check_fn float_parse bs = Val (Parser.Ret t st) /\
+             Parser.p_warnings st = [] /\ Parser.p_version st = ver /\ Parser.p_standalone st = sa.
+Proof. exact reload_clean_composed. Qed.
+
+(* [F] non-vacuity of WorldOK on the current tables *)
+Theorem C07_worldok_nonvacuous :
+  forall check_fn : N -> list N -> res bool,
+  WorldOK RT check_fn REAL_LATEST w_root_only (Some 0) /\ exists t, proj 2 w_root_only (Some 0) 0 = Some t.
+Proof. exact worldok_nonvacuous. Qed.
 
 (* [F witness] "every node of every reachable world is Ordered for its CURRENT min_version" is FALSE: Ordered is relative to
    a version and min_version changes when a file of another version joins the model (finding class mixed-version-files):
